@@ -36,12 +36,27 @@ type c13Case struct {
 	Content int           `json:"content"`
 	Len     int           `json:"len"`
 	Junk    []c13JunkSpec `json:"junk,omitempty"`
+	// JunkRun > 0: the junk arrangement is repeated cyclically until JunkRun junk datagrams stand
+	// in front of the valid one (run length of consecutive junk within one ReadFrom call)
+	JunkRun int `json:"junk_run,omitempty"`
 }
 
 func (c *c13Case) key() []byte { return c13KeySpec{c.KeyLen, c.KeyFill}.bytes() }
 func (c *c13Case) salt() []byte {
 	b, _ := hex.DecodeString(c.Salt)
 	return b
+}
+
+// junk expands the arrangement to the run actually injected (see JunkRun).
+func (c *c13Case) junk() []c13JunkSpec {
+	if c.JunkRun <= 0 || len(c.Junk) == 0 {
+		return c.Junk
+	}
+	run := make([]c13JunkSpec, c.JunkRun)
+	for i := range run {
+		run[i] = c.Junk[i%len(c.Junk)]
+	}
+	return run
 }
 
 const c13MaxReports = 4
@@ -301,7 +316,7 @@ func c13RunCase(c *c13Case, pr *c13Pair, dump func(payload, wire []byte)) (claus
 		case "roundtrip":
 			clause = c13RoundTrip(pr, c.salt(), c.Content, c.Len, dump)
 		case "junk":
-			clause = c13JunkCase(pr, c.Junk, c.salt(), c.Len)
+			clause = c13JunkCase(pr, c.junk(), c.salt(), c.Len)
 		default:
 			clause = "unknown case kind " + c.Kind
 		}
@@ -318,6 +333,9 @@ func c13Sig(c *c13Case, clause string) string {
 	case "refuse":
 		return fmt.Sprintf("refuse/%s/keylen=%d", clause, c.KeyLen)
 	case "junk":
+		if c.JunkRun > 0 {
+			return fmt.Sprintf("junk/%s/key=%s,junk=%v,run=%d,len=%d", clause, c13KeySpec{c.KeyLen, c.KeyFill}, c.Junk, c.JunkRun, c.Len)
+		}
 		return fmt.Sprintf("junk/%s/key=%s,junk=%v,len=%d", clause, c13KeySpec{c.KeyLen, c.KeyFill}, c.Junk, c.Len)
 	}
 	return fmt.Sprintf("%s/%s/key=%s,salt=%s,content=%d,len=%d", c.Kind, clause, c13KeySpec{c.KeyLen, c.KeyFill}, c.Salt, c.Content, c.Len)
@@ -552,6 +570,73 @@ junk:
 		}
 	}
 
+	// (3b) junk runs: HOW MANY junk datagrams stand in a row in front of the valid one, all taken
+	// within a single ReadFrom call. The property drops junk whatever its number: the first ReadFrom
+	// returns the valid payload, and junk never surfaces - not even as an empty read. Added after the
+	// independently seeded change C13-9 (ReadFrom gave up after 128 undecodable datagrams in one call
+	// and returned (0, addr, nil), surfacing junk to QUIC as an empty packet).
+	p2b := sh.Part("junk-run", "enum")
+	runs := []int{1, 9, 127, 128, 129, 300, 1000}
+	runLens, runClasses := []int{1, c13SaltLen}, []int{0, 3}
+	if env.Thorough() {
+		runs = nil
+		for r := 1; r <= 520; r++ {
+			runs = append(runs, r)
+		}
+		runs = append(runs, 1000, 1023, 1024, 1025, 4096)
+		runLens, runClasses = []int{1, 2, 3, 4, 5, 6, 7, 8}, []int{0, 1, 2, 3}
+	}
+	p2b.Alphabet = map[string]any{"junk_run_length": fmt.Sprint(runs), "junk_len": fmt.Sprint(runLens) + " repeated, and the cycle 1..8", "junk_content": fmt.Sprint(runClasses) + " (0 zeros, 1 pattern, 2 0xff, 3 prefix of a valid wire packet)", "follower": "valid packet of 1 or 1200 bytes from another source address", "keys": fmt.Sprint(c13ValidKeys),
+		"checked": "one ReadFrom on the wrapped socket: returns the valid payload and its source, took run+1 datagrams from the inner socket, no empty read, no error"}
+	for _, k := range c13ValidKeys {
+		var pr *c13Pair
+		var arr [][]c13JunkSpec
+		for _, class := range runClasses {
+			var cyc []c13JunkSpec
+			for l := 1; l <= c13SaltLen; l++ {
+				cyc = append(cyc, c13JunkSpec{l, class})
+			}
+			for _, l := range runLens {
+				arr = append(arr, []c13JunkSpec{{l, class}})
+			}
+			arr = append(arr, cyc)
+		}
+		for ai, junk := range arr {
+			for ri, run := range runs {
+				for fi, fl := range []int{1, 1200} {
+					if !mine() {
+						continue
+					}
+					if item&255 == 0 && env.Expired() {
+						p2b.Exhaustive = false
+						p2b.Note("deadline reached in junk-run at key %v arrangement %d run %d; everything before it (in enumeration order) was covered", k, ai, run)
+						goto recorded
+					}
+					c := &c13Case{Kind: "junk", KeyLen: k.Len, KeyFill: k.Fill, Salt: salts[(ai+ri+fi)%len(salts)], Len: fl, Junk: junk, JunkRun: run}
+					if pr == nil {
+						var cl string
+						if pr, cl = c13NewPair(k.bytes()); cl != "" {
+							p2b.Evaluations++
+							report(p2b, c, cl)
+							continue
+						}
+					}
+					p2b.Evaluations++
+					clause := c13RunCase(c, pr, nil)
+					p2b.Class(k.String(), junk, run, fl, clause == "")
+					if run == 128 && len(junk) == 1 && junk[0].Len == 8 && junk[0].Class == 3 {
+						p2b.Sample(c)
+					}
+					if clause != "" {
+						report(p2b, c, clause)
+						pr = nil
+					}
+				}
+			}
+		}
+	}
+
+recorded:
 	// (4) recorded, not gated: empty datagram and payloads beyond 2040 bytes
 	if env.Shard == 0 {
 		p3 := sh.Part("recorded-not-gated", "enum")
